@@ -2,7 +2,12 @@
 
 package saml
 
+import "github.com/beevik/etree"
+
 func verifMaterialise(d *verifDoc) []byte
 
 func verifMaterialiseLogout(lr *LogoutResponse, sign int, rootless bool) []byte
 func verifDeflate(b []byte) []byte
+
+// verifSignedBy reports whether el carries an enveloped signature over itself that verifies under test certificate (kind,id).
+func verifSignedBy(el *etree.Element, kind int, id int) bool
